@@ -10,9 +10,10 @@ class C10(Prop):
     pid = "C10"
     check_mod = "C10"
     drivers = [dict(pkg="internal/conf", test="TestVerifC10")]
-    n_quick = 700
+    n_quick = 1000
     n_thorough = 20000
     shard = 100
+    search_factor = 3           # the deterministic one-parameter sweep is part of every run; the search only adds random documents
     ready = True
     manifest = dict(
         text="Coq theorems: (1) decrypt.Decrypt after the fix: commit never reaches an out-of-range slice, for all byte "
@@ -68,6 +69,7 @@ class C10(Prop):
 
     # ---- translator: error return sites of Conf.Validate / Path.validate ------------------------------------
     def generate(self, ctx):
+        self._notes, self._sites = [], None
         out = os.path.join(vlib.COQ, "gen", "C10_ErrSites.v")
         notes = os.path.join(ctx.workdir, "c10_sites.json")
         tmp = os.path.join(ctx.workdir, "C10_ErrSites.v")
@@ -99,14 +101,14 @@ class C10(Prop):
                 "table: %s; in the table but not in the code: %s; unrecognised return shape: %s" % (
                     ["%s: %r" % (where.get(k), k[2]) for k in extra], [k[2] for k in missing],
                     ["%s line %d" % (s["func"], s["line"]) for s in odd]))
-        self._notes = ["error sites: %d (Conf.Validate %d, Path.validate %d), all in Model/C10_Sites.v" % (
+        self._notes += ["error sites: %d (Conf.Validate %d, Path.validate %d), all in Model/C10_Sites.v" % (
             len(sites), sum(1 for s in sites if s["fn"] == 0), sum(1 for s in sites if s["fn"] == 1))]
         return self._notes
 
     def extra_checks(self, ctx, cases):
         # distribution note: which error sites the compare stream reached (real Validate error against the format strings)
         sites = getattr(self, "_sites", None)
-        if not sites:
+        if not sites or getattr(self, "_notes", None) is None:
             return []
         pats = []
         for s in sites:
